@@ -42,6 +42,9 @@ def enabled_ops(model, E, K, pairs=None, foreign=False):
     if n + 2 <= K:
         prs = pairs if pairs is not None else [(E[i], E[(i + 1) % len(E)]) for i in range(len(E))] + [(e, e) for e in E]
         ops += [("bulk", p) for p in prs]
+        # the SAME event object listed twice: two insertions all the same (a seeded batch-wide
+        # deepcopy with a shared memo collapsed them into one stored object with one id)
+        ops += [("bulksame", e) for e in E[:2]]
     for k in range(n):
         ops += [("ups", k, e) for e in E]
         if n + 1 <= K:
@@ -73,6 +76,10 @@ def perform(ds, bid, model, op, emb):
         elif kind == "bulk":
             b.insert([emb.ev(*e) for e in op[1]])
             fresh += [content(emb, e) for e in op[1]]
+        elif kind == "bulksame":
+            ev = emb.ev(*op[1])
+            b.insert([ev, ev])
+            fresh += [content(emb, op[1]), content(emb, op[1])]
         elif kind == "ups":
             target = ids[op[1]]
             b.insert([emb.ev(*op[2], id=target)])
